@@ -140,6 +140,14 @@ def model(p, ops, res, palt=None):
                     pdig = b"<non-hex accepted>"
         elif o == "W":
             p = palt          # the file behind the descriptor is now the other one
+        elif o == "I":
+            # the context is handed a file again: what was pinned stays pinned (nothing un-pins but the caller); the lead has
+            # to be read anew.  A library that refuses to take a second file makes no claim.
+            if not ok:
+                break
+            lead_ok = False
+            dead = True     # from here on only "nothing unequal to the pins gets through" is claimed: whether a context that has
+                            # opened a file takes another one at all (this library refuses the second header) is its business
         elif o in ("V", "R"):
             exp = (ptype is None or ptype == p.htype) and (pdig is None or pdig == p.hdigest) and \
                   (plen is None or plen == p.header_len)
@@ -259,6 +267,11 @@ def run(ctx):
                     for mid in ([("V", None)], [("V", None), ("V", None)], []):
                         hs.append(pre + mid + [("W", None), ("R", None), ("H", None)])
                         hs.append(pre + mid + [("W", None), ("V", None), ("R", None), ("H", None)])
+                    # a context with a past: it has read the first file's lead (and header), then is handed the other file
+                    for first in ([("R", None)], [("R", None), ("H", None)], [("V", None), ("R", None), ("H", None)]):
+                        hs.append(pre + first + [("W", None), ("I", None), ("R", None), ("H", None)])
+                        hs.append(pre + first + [("W", None), ("I", None), ("V", None), ("R", None), ("H", None)])
+                        hs.append(pre + first + [("I", None), ("R", None), ("H", None)])
             else:
                 alt = None
         for ch in core.chunks(hs, 600):
